@@ -3,7 +3,7 @@
    reaches the moved object in the FINAL state of every schedule (name expansion, resolveName, link_to). *)
 From Coq Require Import ZArith NArith List Bool Lia Permutation.
 From PydoctorVerif Require Import Base.Sexp Model.Project Model.Linker Spec.ProjectStatic Proofs.ProjectBase Proofs.ProjectRegistry
-     Proofs.ProjectKeep Proofs.ProjectAlias Proofs.ProjectMove Proofs.ProjectBases Proofs.LinkerProofs.
+     Proofs.ProjectKeep Proofs.ProjectAlias Proofs.ProjectMove Proofs.ProjectBases Proofs.LinkerProofs Proofs.ProjectRoots.
 Import ListNotations.
 Local Open Scope N_scope.
 
@@ -42,34 +42,23 @@ Section Reach.
 
   Hypothesis Hwf : parents_first p.
   Hypothesis H0 : keys_distinct p.
-  Hypothesis H1 : forall o o', sobj p o <> None -> sobj p o' <> None -> keyA o = keyA o' -> o = o'.
   Hypothesis HRD : R <> D.
   Hypothesis Hix : ix <> 0.
   Hypothesis Hxdom : sobj p x <> None.
   Hypothesis Hxname : sname p x = xname.
-  Variables (miR miD : modinfo) (spre spost : list stmt) (lvl : N) (mn : path) (npre npost : list (N * N)).
+  Variables (miR miD : modinfo).
   Hypothesis HR_mod : modinfo_of p R = Some miR.
-  Hypothesis HR_stmts : m_stmts miR = spre ++ SImportFrom lvl mn (npre ++ (xname, n) :: npost) :: spost.
-  Hypothesis HR_once_names : forall oa, In oa (npre ++ npost) -> snd oa <> n.
-  Hypothesis HR_once_stmts : forall lv m' nms oa, In (SImportFrom lv m' nms) (spre ++ spost) -> In oa nms -> snd oa <> n.
-  Hypothesis HR_exp : In n (exports_of_mod miR).
-  Hypothesis HR_res : static_modname p R lvl mn = Some (skey p Dm).
   Hypothesis HD_mod : modinfo_of p D = Some miD.
-  Hypothesis HD_leaf : forall st, In st (m_stmts miD) -> local_stmt st = true.
-  Hypothesis HD_all : forall a, last_all (m_stmts miD) None = Some a -> ~ In xname a.
-  Hypothesis Honly : forall m mi st, modinfo_of p m = Some mi -> In st (m_stmts mi) ->
-    match st with
-    | SImportFrom _ _ nms => forall oa, In oa nms -> In (snd oa) (exports_of_mod mi) -> m = R /\ snd oa = n
-    | SImportStar _ _ => exports_of_mod mi = []
-    | _ => True
-    end.
   (* the consumer *)
   Variables (C : N) (miC : modinfo).
   Hypothesis HC_mod : modinfo_of p C = Some miC.
   Hypothesis HC_R : C <> R.
-  Hypothesis HC_D : C <> D.
-  Hypothesis HC_plain : forall st, In st (m_stmts miC) -> plain_stmt st = true.
   Notation Cm := (C, 0, 0).
+  (* what the machine proofs (Proofs/ProjectMove.v, Proofs/ProjectMoveStar.v) establish about the final state *)
+  Hypothesis Hfinal : forall sigma, Permutation sigma (module_ids p) ->
+    exists s, run_state p sigma = Ok s /\ Inv p nmA parA (fun s => created_of p s x) s /\ frames s = [] /\ unproc s = [] /\
+              (exists db, objs s Dm = Some db /\ nget xname (o_alias db) = Some (keyA x)) /\
+              exists cb, objs s Cm = Some cb /\ o_alias cb = static_alias p C.
 
   Lemma keyA_x : keyA x = skey p Rm ++ [n].
   Proof.
@@ -104,9 +93,7 @@ Section Reach.
   Lemma final_state sigma : Permutation sigma (module_ids p) -> exists s, run_state p sigma = Ok s /\ final_facts s.
   Proof.
     intros Hperm.
-    destruct (moved_final p R D ix xname n Hwf H0 H1 HRD Hix Hxdom Hxname miR miD spre spost lvl mn npre npost HR_mod HR_stmts
-                HR_once_names HR_once_stmts HR_exp HR_res HD_mod HD_leaf HD_all Honly C miC HC_mod HC_R HC_D HC_plain sigma Hperm)
-      as (s & Hrun & HI & Hfr & Hun & (db & Ed & Ea) & (cb & Ecb & Acb)).
+    destruct (Hfinal sigma Hperm) as (s & Hrun & HI & Hfr & Hun & (db & Ed & Ea) & (cb & Ecb & Acb)).
     exists s. split; [exact Hrun|].
     pose proof (i_oa p _ _ _ s HI) as HA. pose proof (i_or p _ _ _ s HI) as HR'.
     assert (Hcr : forall o, created_of p s o <-> sobj p o <> None).
@@ -166,3 +153,152 @@ Section Reach.
       destruct t; discriminate.
   Qed.
 End Reach.
+
+(* System.find_object with the OLD qualified name of the moved object, D a top-level module *)
+Section FindOld.
+  Variable p : project.
+  Variables (R D ix xname n : N).
+  Notation x := (D, ix, 0).
+  Notation Rm := (R, 0, 0).
+  Notation Dm := (D, 0, 0).
+  Notation nmA := (nm1 p D ix n).
+  Notation parA := (par1 p R D ix).
+  Notation keyA := (key p nmA parA).
+
+  Hypothesis Hwf : parents_first p.
+  Hypothesis H0 : keys_distinct p.
+  Hypothesis H1 : forall o o', sobj p o <> None -> sobj p o' <> None -> keyA o = keyA o' -> o = o'.
+  Hypothesis HRD : R <> D.
+  Hypothesis Hix : ix <> 0.
+  Hypothesis Hxdom : sobj p x <> None.
+  Hypothesis Hxname : sname p x = xname.
+  Variables (miR miD : modinfo) (spre spost : list stmt) (lvl : N) (mn : path) (npre npost : list (N * N)).
+  Hypothesis HR_mod : modinfo_of p R = Some miR.
+  Hypothesis HR_stmts : m_stmts miR = spre ++ SImportFrom lvl mn (npre ++ (xname, n) :: npost) :: spost.
+  Hypothesis HR_once_names : forall oa, In oa (npre ++ npost) -> snd oa <> n.
+  Hypothesis HR_once_stmts : forall lv m' nms oa, In (SImportFrom lv m' nms) (spre ++ spost) -> In oa nms -> snd oa <> n.
+  Hypothesis HR_exp : In n (exports_of_mod miR).
+  Hypothesis HR_res : static_modname p R lvl mn = Some (skey p Dm).
+  Hypothesis HD_mod : modinfo_of p D = Some miD.
+  Hypothesis HD_leaf : forall st, In st (m_stmts miD) -> local_stmt st = true.
+  Hypothesis HD_all : forall a, last_all (m_stmts miD) None = Some a -> ~ In xname a.
+  Hypothesis Honly : forall m mi st, modinfo_of p m = Some mi -> In st (m_stmts mi) ->
+    match st with
+    | SImportFrom _ _ nms => forall oa, In oa nms -> In (snd oa) (exports_of_mod mi) -> m = R /\ snd oa = n
+    | SImportStar _ _ => exports_of_mod mi = []
+    | _ => True
+    end.
+  Hypothesis HD_root : m_parent miD = None.
+
+  Lemma sobj_Dm : sobj p Dm = Some {| s_tag := if m_pkg miD then T_PACKAGE else T_MODULE; s_kind := if m_pkg miD then K_PACKAGE else K_MODULE;
+                                      s_name := m_name miD; s_parent := None; s_doc := m_doc miD |}.
+  Proof. unfold sobj. cbn [N.eqb]. rewrite HD_mod, HD_root. reflexivity. Qed.
+
+  Lemma skey_x_old : skey p x = [m_name miD; xname].
+  Proof.
+    rewrite (skey_parent p Hwf x Dm (sparent_x p D ix Hix Hxdom)), Hxname.
+    rewrite (skey_root p Dm) by (unfold sparent; rewrite sobj_Dm; reflexivity). unfold sname. rewrite sobj_Dm. reflexivity.
+  Qed.
+
+  Theorem find_object_old_name sigma :
+    Permutation sigma (module_ids p) ->
+    exists s, run_state p sigma = Ok s /\ find_object s (skey p x) = (1, Some x).
+  Proof.
+    intros Hperm.
+    destruct (moved_final0 p R D ix xname n Hwf H0 H1 HRD Hix Hxdom Hxname miR miD spre spost lvl mn npre npost HR_mod HR_stmts
+                HR_once_names HR_once_stmts HR_exp HR_res HD_mod HD_leaf HD_all Honly sigma Hperm)
+      as (s & Hrun & HI & Hfr & Hun & (db & Ed & Ea)).
+    exists s. split; [exact Hrun|].
+    pose proof (i_oa p _ _ _ s HI) as HA. pose proof (i_or p _ _ _ s HI) as HR'.
+    assert (Hroots : roots s = roots (init_state p sigma)) by (unfold run_state in Hrun; exact (run_machine_roots p _ _ _ Hrun)).
+    assert (Hcr : forall o, created_of p s o <-> sobj p o <> None).
+    { intros o. unfold created_of, pending_of. rewrite Hfr, Hun. split; [tauto|]. intros Hd. split; [exact Hd|]. right.
+      intros [[]|(fr & st & [] & _)]. }
+    assert (Hnx : nmA x = n /\ parA x = Some Rm) by (unfold nm1, par1; rewrite oid_eqb_refl; auto).
+    destruct Hnx as [Hnx Hpx].
+    assert (Hother : forall o, o <> x -> nmA o = sname p o /\ parA o = sparent p o).
+    { intros o Ho. unfold nm1, par1. rewrite (oid_eqb_neq o x Ho). auto. }
+    assert (Cx : created_of p s x) by (apply Hcr; exact Hxdom).
+    assert (HkR : keyA x = skey p Rm ++ [n]).
+    { unfold key, depth_fuel. replace (length p + 4)%nat with (S (length p + 3)) by lia. cbn [qname_f].
+      unfold par1 at 1. unfold nm1 at 2. rewrite oid_eqb_refl.
+      rewrite (key1_nonsub_f p R D ix n Hix (length p + 3) Rm) by (apply Rm_nonsub; exact HRD).
+      f_equal. unfold skey, depth_fuel.
+      assert (HR : (N.to_nat R < length p)%nat) by (unfold modinfo_of in HR_mod; apply nth_error_Some; congruence).
+      apply (qname_module_stable p Hwf (length p) R); lia. }
+    (* the old name is no longer registered *)
+    assert (Hold : pget (skey p x) (allobjs s) = None).
+    { destruct (pget (skey p x) (allobjs s)) as [o|] eqn:Eg; [|reflexivity]. exfalso.
+      destruct (or_sound _ _ _ _ _ HR' _ o Eg) as [Co Ko]. apply Hcr in Co.
+      destruct (oid_eq_dec o x) as [->|Hox].
+      - rewrite HkR, (skey_parent p Hwf x Dm (sparent_x p D ix Hix Hxdom)) in Ko. apply app_inj_tail in Ko. destruct Ko as [Ko _].
+        assert (E : Rm = Dm) by (apply H0; [unfold sobj; cbn [N.eqb]; rewrite HR_mod; discriminate|rewrite sobj_Dm; discriminate|exact Ko]).
+        inversion E. congruence.
+      - destruct (Hother o Hox) as [En Ep].
+        destruct (sparent p o) as [q|] eqn:Eq.
+        + (* o has a parent: either x itself (a member: the key is too long) or something outside the moved sub-tree *)
+          destruct (oid_eq_dec q x) as [->|Hqx].
+          * assert (Hlen : (3 <= length (keyA o))%nat).
+            { unfold key, depth_fuel. replace (length p + 4)%nat with (S (S (S (length p + 1)))) by lia.
+              change (qname_f nmA parA (S (S (S (length p + 1)))) o)
+                with (match parA o with None => [nmA o] | Some q0 => qname_f nmA parA (S (S (length p + 1))) q0 ++ [nmA o] end).
+              rewrite Ep.
+              change (qname_f nmA parA (S (S (length p + 1))) x)
+                with (match parA x with None => [nmA x] | Some q0 => qname_f nmA parA (S (length p + 1)) q0 ++ [nmA x] end).
+              rewrite Hpx. rewrite !app_length. cbn [length].
+              assert (1 <= length (qname_f nmA parA (S (length p + 1)) Rm))%nat.
+              { cbn [qname_f]. destruct (parA Rm); [rewrite app_length; cbn [length]; lia|cbn [length]; lia]. }
+              lia. }
+            rewrite Ko, skey_x_old in Hlen. cbn [length] in Hlen. lia.
+          * assert (Hns : ~ sub D ix o).
+            { intros [Hs1 Hs2]. destruct o as [[om oi] oj]. cbn [fst snd] in Hs1, Hs2. subst om oi.
+              destruct (sparent_shape p Hwf (D, ix, oj) q Eq) as [_ [(Hz & _)|[(_ & Hj & _)|(_ & _ & Hq)]]]; cbn [fst snd] in *.
+              - contradiction.
+              - subst oj. apply Hox. reflexivity.
+              - apply Hqx. exact Hq. }
+            rewrite (key1_nonsub p R D ix n Hix o Hns) in Ko. apply Hox. apply H0; [exact Co|exact Hxdom|exact Ko].
+        + assert (Hns : ~ sub D ix o).
+          { intros [Hs1 Hs2]. destruct o as [[om oi] oj]. cbn [fst snd] in Hs1, Hs2. subst om oi.
+            unfold sparent in Eq. destruct (sobj p (D, ix, oj)) as [si|] eqn:Es; [|congruence].
+            unfold sobj in Es. apply N.eqb_neq in Hix. rewrite Hix in Es. destruct (stmt_at p D ix) as [st|]; [|discriminate].
+            destruct st; cbn [stmt_info] in Es; try discriminate.
+            - destruct (N.eqb oj 0); [inversion Es; subst si; discriminate|].
+              destruct (nth_error members (N.to_nat (oj - 1))) as [[[mk nn] dd]|]; [|discriminate].
+              inversion Es; subst si. unfold member_info in Eq. destruct (N.eqb mk 0); discriminate.
+            - destruct (N.eqb oj 0); [inversion Es; subst si; discriminate|discriminate].
+            - destruct (N.eqb oj 0); [inversion Es; subst si; discriminate|discriminate]. }
+          rewrite (key1_nonsub p R D ix n Hix o Hns) in Ko. apply Hox. apply H0; [exact Co|exact Hxdom|exact Ko]. }
+    (* the defining module, found among the roots by its name *)
+    assert (Hdmod : is_module_tag (o_tag db) = true).
+    { destruct (oa_static _ _ _ _ _ HA Dm db _ Ed sobj_Dm) as (Ht & _). cbn [s_tag] in Ht. rewrite Ht. destruct (m_pkg miD); reflexivity. }
+    assert (Hcont : nget xname (o_contents db) = None).
+    { destruct (nget xname (o_contents db)) as [o|] eqn:Eg; [|reflexivity]. exfalso.
+      destruct (oa_contents _ _ _ _ _ HA Dm db xname o Ed Eg) as (Co & Po & No).
+      assert (Hox : o <> x) by (intros ->; rewrite Hpx in Po; inversion Po; congruence).
+      destruct (Hother o Hox) as [En Ep]. rewrite En in No. rewrite Ep in Po. apply Hox.
+      apply H0; [apply (oa_dom _ _ _ _ _ HA); exact Co|exact Hxdom|].
+      apply (key_same p (sname p) (sparent p)); [rewrite (sparent_x p D ix Hix Hxdom); exact Po|congruence]. }
+    assert (Hfind : find (fun r => match objs s r with Some rb => N.eqb (o_name rb) (m_name miD) | None => false end) (roots s) = Some Dm).
+    { apply find_unique.
+      - rewrite Hroots. apply roots_init. exists D, miD. auto.
+      - rewrite Ed. destruct (oa_static _ _ _ _ _ HA Dm db _ Ed sobj_Dm) as (_ & _ & Hn & _).
+        rewrite Hn. destruct (Hother Dm ltac:(intros E; inversion E; congruence)) as [-> _]. unfold sname. rewrite sobj_Dm. apply N.eqb_refl.
+      - intros r Hr Hf. rewrite Hroots in Hr. apply roots_init in Hr. destruct Hr as (m & mi & Hm & Hp & ->).
+        destruct (objs s (m, 0, 0)) as [rb|] eqn:Er; [|discriminate]. apply N.eqb_eq in Hf.
+        assert (Hsm : sobj p (m, 0, 0) = Some {| s_tag := if m_pkg mi then T_PACKAGE else T_MODULE; s_kind := if m_pkg mi then K_PACKAGE else K_MODULE;
+                                                s_name := m_name mi; s_parent := None; s_doc := m_doc mi |})
+          by (unfold sobj; cbn [N.eqb]; rewrite Hm, Hp; reflexivity).
+        destruct (oa_static _ _ _ _ _ HA (m, 0, 0) rb _ Er Hsm) as (_ & _ & Hn & _).
+        destruct (Hother (m, 0, 0) ltac:(intros E; inversion E; congruence)) as [En _]. rewrite En in Hn. unfold sname in Hn. rewrite Hsm in Hn.
+        cbn [s_name] in Hn.
+        apply H0; [rewrite Hsm; discriminate|rewrite sobj_Dm; discriminate|].
+        rewrite (skey_root p (m, 0, 0)) by (unfold sparent; rewrite Hsm; reflexivity).
+        rewrite (skey_root p Dm) by (unfold sparent; rewrite sobj_Dm; reflexivity).
+        unfold sname. rewrite Hsm, sobj_Dm. cbn [s_name]. congruence. }
+    rewrite skey_x_old. rewrite skey_x_old in Hold.
+    apply (find_object_old_root s (m_name miD) Dm db xname (keyA x) x); try assumption.
+    - rewrite (oa_fuel _ _ _ _ _ HA). unfold depth_fuel. lia.
+    - apply (or_complete _ _ _ _ _ HR'). exact Cx.
+  Qed.
+End FindOld.
+
